@@ -223,6 +223,7 @@ where
     pub eq: F<fn(List<E>, List<E>) -> bool>,
     pub ne: F<fn(List<E>, List<E>) -> bool>,
     pub lit3: F<fn(E, E, E) -> List<E>>,
+    pub lit9: F<fn(E, E, E) -> List<E>>,
     pub count: F<fn(List<E>) -> u64>,
     pub forpush: F<fn(List<E>, u64) -> u64>,
     pub find: F<fn(List<E>, E) -> u64>,
@@ -249,6 +250,7 @@ fn index_{x}(l: List[{ty}], v: {ty}) -> u64? {{ l.index(v) }}
 fn eq_{x}(a: List[{ty}], b: List[{ty}]) -> bool {{ a == b }}
 fn ne_{x}(a: List[{ty}], b: List[{ty}]) -> bool {{ a != b }}
 fn lit3_{x}(a: {ty}, b: {ty}, c: {ty}) -> List[{ty}] {{ [a, b, c] }}
+fn lit9_{x}(a: {ty}, b: {ty}, c: {ty}) -> List[{ty}] {{ [a, b, c, a, b, c, a, b, c] }}
 fn count_{x}(l: List[{ty}]) -> u64 {{
     let n = 0;
     for x in l {{ n = n + 1; }}
@@ -322,6 +324,7 @@ where
             eq: g!("eq"),
             ne: g!("ne"),
             lit3: g!("lit3"),
+            lit9: g!("lit9"),
             count: g!("count"),
             forpush: g!("forpush"),
             find: g!("find"),
@@ -500,6 +503,13 @@ where
                 let mut it = vals.iter().map(|m| E::from_m(m, &self.inner));
                 let (a, b, c) = (it.next().unwrap(), it.next().unwrap(), it.next().unwrap());
                 let l = if script { f.lit3.call(a, b, c) } else { List::from([a, b, c]) };
+                self.slots[*dst] = Some(l);
+                Obs::Unit
+            }
+            Op::Lit9 { dst, vals } => {
+                let mut it = vals.iter().map(|m| E::from_m(m, &self.inner));
+                let (a, b, c) = (it.next().unwrap(), it.next().unwrap(), it.next().unwrap());
+                let l = f.lit9.call(a, b, c);
                 self.slots[*dst] = Some(l);
                 Obs::Unit
             }
